@@ -205,6 +205,13 @@ func init() {
 		add("", s, "bool")
 	}
 	add("", "true", "basic", "int", "float")
+	// whitespace only: not empty, but nothing after trimming (unit parsing trims; strconv does not)
+	add("#sp", " ", "unit", "int", "float", "bool", "len")
+	add("#sp2", "  ", "unit")
+	add("#tab", "\t", "unit", "float")
+	add("#nl", "\n", "unit", "int")
+	add("", " 5m30s ", "unit")
+	add("#tab1s", "\t1s", "unit")
 	// unit strings for the second based set (d H m s)
 	for _, s := range []string{"0s", "1s", "2s", "3s", "1 s", "1second", "2 seconds", "1 seconds", "2second", "0m1s", "0m2s", "0d0H0m3s",
 		"1m", "1m4s", "5m30s", "90s", "1H", "1d", "1d1s", "1s1m", "1m1m", "1x", "1h", "1S", "s", "1.5s", "0.5s", "1.5m",
